@@ -615,6 +615,7 @@ func (s *CreateDatabaseStatement) String() string {
 	_, _ = buf.WriteString(QuoteIdent(s.Name))
 	if s.RetentionPolicyCreate {
 		_, _ = buf.WriteString(" WITH")
+		bare := buf.Len()
 		if s.RetentionPolicyDuration != nil {
 			_, _ = buf.WriteString(" DURATION ")
 			_, _ = buf.WriteString(FormatDuration(*s.RetentionPolicyDuration))
@@ -638,6 +639,11 @@ func (s *CreateDatabaseStatement) String() string {
 		if s.RetentionPolicyName != "" {
 			_, _ = buf.WriteString(" NAME ")
 			_, _ = buf.WriteString(QuoteIdent(s.RetentionPolicyName))
+		}
+		if buf.Len() == bare {
+			// WITH must be followed by an option; every option here has its
+			// zero value (e.g. WITH SHARD DURATION 0s), so write that one.
+			_, _ = buf.WriteString(" SHARD DURATION 0s")
 		}
 	}
 
